@@ -47,7 +47,7 @@ func (e *vtC18Evictor) PreEvictionFilter(pod *corev1.Pod) bool { return true }
 func (e *vtC18Evictor) Evict(ctx context.Context, pod *corev1.Pod, opts framework.EvictOptions) bool {
 	var id int64
 	fmt.Sscanf(pod.Annotations[vtC18AnnID], "%d", &id)
-	*e.calls = append(*e.calls, e.node[pod.Spec.NodeName], id)
+	*e.calls = append(*e.calls, e.node[pod.Spec.NodeName], vtC18NsIdx[pod.Namespace], id)
 	return pod.Annotations[vtC18AnnEvictOK] == "1"
 }
 
@@ -84,6 +84,10 @@ func (l *vtC18Lister) Get(name string) (*slov1alpha1.NodeMetric, error) {
 	}
 	return nil, apierrors.NewNotFound(schema.GroupResource{Group: "slo.koordinator.sh", Resource: "nodemetrics"}, name)
 }
+
+// namespaces: 0,1 evictable, 2,3 on the EvictableNamespaces.Exclude list
+var vtC18Ns = []string{"ns-a", "ns-b", "excl-a", "excl-b"}
+var vtC18NsIdx = map[string]int64{"ns-a": 0, "ns-b": 1, "excl-a": 2, "excl-b": 3}
 
 var vtC18Dims = []corev1.ResourceName{corev1.ResourceCPU, corev1.ResourceMemory, corev1.ResourcePods}
 
@@ -163,7 +167,7 @@ func vtC18Exec(in []int64) []int64 {
 		DryRun:                      dry != 0,
 		NodeFit:                     fit != 0,
 		NodeMetricExpirationSeconds: &expiration,
-		EvictableNamespaces:         &deschedulerconfig.Namespaces{Exclude: []string{"excluded"}},
+		EvictableNamespaces:         &deschedulerconfig.Namespaces{Exclude: []string{"excl-a", "excl-b"}},
 		PodSelectors: []deschedulerconfig.LowNodeLoadPodSelector{
 			{Name: "sel", Selector: &metav1.LabelSelector{MatchLabels: map[string]string{"verif/sel": "1"}}},
 		},
@@ -224,12 +228,12 @@ func vtC18Exec(in []int64) []int64 {
 				},
 			}
 			for j := 0; j < np; j++ {
-				id, prio, met, cpu, mem, filt, evok := next(), next(), next(), next(), next(), next(), next()
+				id, nsi, prio, met, cpu, mem, filt, evok := next(), next(), next(), next(), next(), next(), next(), next()
 				prio32 := int32(prio)
 				pod := &corev1.Pod{
 					ObjectMeta: metav1.ObjectMeta{
 						Name:      fmt.Sprintf("p%04d", id),
-						Namespace: "ns",
+						Namespace: vtC18Ns[nsi&3],
 						Labels:    map[string]string{},
 						Annotations: map[string]string{
 							vtC18AnnID:        fmt.Sprintf("%d", id),
@@ -242,9 +246,6 @@ func vtC18Exec(in []int64) []int64 {
 				}
 				if filt&2 != 0 {
 					pod.Labels["verif/sel"] = "1"
-				}
-				if filt&4 == 0 {
-					pod.Namespace = "excluded"
 				}
 				handle.pods[name] = append(handle.pods[name], pod)
 				if met != 0 {
@@ -274,7 +275,7 @@ func vtC18Exec(in []int64) []int64 {
 		}
 		calls = calls[:0]
 		pl.Balance(context.Background(), nodes)
-		obs = append(obs, int64(len(calls)/2))
+		obs = append(obs, int64(len(calls)/3))
 		obs = append(obs, calls...)
 		for i := 0; i < n; i++ {
 			name := fmt.Sprintf("n%02d", i+1)
@@ -287,7 +288,7 @@ func vtC18Exec(in []int64) []int64 {
 // ---------------------------------------------------------------------------------------
 // generator
 
-type vtC18Pod struct{ id, prio, met, cpu, mem, filt, evok int64 }
+type vtC18Pod struct{ id, ns, prio, met, cpu, mem, filt, evok int64 }
 
 func vtC18Score(u, cap [3]int64, w [3]int64, cpuActive bool) int64 {
 	var s, ws int64
@@ -508,22 +509,44 @@ func vtC18Gen(r *rand.Rand, i int) (string, []int64) {
 				pods := make([]vtC18Pod, np)
 				var u, pu [3]int64
 				u[0], u[1], u[2] = sysc, sysm, int64(np)
+				// StatefulSet-style twins: the same pod name in two namespaces (tenants) on one node,
+				// one of prod priority and one not
+				twins := r.Intn(3) == 0
 				for q := 0; q < np; q++ {
 					band := []int64{9000, 9000, 7000, 5000, 5000, 3000, 0}[r.Intn(7)]
 					if level[j] == 3 && r.Intn(3) != 0 {
 						band = 9000
 					}
+					twin := twins && q%2 == 1
+					if twin {
+						if pods[q-1].prio >= 9000 {
+							band = []int64{7000, 5000, 5000, 3000, 0}[r.Intn(5)]
+						} else {
+							band = 9000
+						}
+					}
 					p := vtC18Pod{id: podID + 1, prio: band + int64(prios[q])}
-					podID++
+					if twin {
+						p.id = pods[q-1].id
+					} else {
+						podID++
+					}
 					p.met = vtB(r.Intn(10) != 0)
 					p.cpu = int64(float64(totc-sysc)/float64(np)*(0.4+1.2*r.Float64())) / unitc * unitc
 					p.mem = int64(float64(totm-sysm)/float64(np)*(0.4+1.2*r.Float64())) / unitm * unitm
 					if r.Intn(15) == 0 {
 						p.cpu = 0
 					}
-					p.filt = 7
-					if r.Intn(4) == 0 {
-						p.filt = int64(r.Intn(7))
+					p.filt = 3
+					p.ns = int64(r.Intn(2))
+					if r.Intn(5) == 0 {
+						p.filt = int64(r.Intn(3))
+					}
+					if r.Intn(12) == 0 {
+						p.ns = 2 + int64(r.Intn(2))
+					}
+					if twin {
+						p.ns = pods[q-1].ns ^ 1
 					}
 					p.evok = vtB(r.Intn(10) != 0)
 					pods[q] = p
@@ -569,7 +592,7 @@ func vtC18Gen(r *rand.Rand, i int) (string, []int64) {
 				}
 				enc = append(enc, unsched, fresh, sysc, sysm, int64(np))
 				for _, p := range pods {
-					enc = append(enc, p.id, p.prio, p.met, p.cpu, p.mem, p.filt, p.evok)
+					enc = append(enc, p.id, p.ns, p.prio, p.met, p.cpu, p.mem, p.filt, p.evok)
 				}
 			}
 			if ok {
